@@ -24,14 +24,14 @@ static inline mem_header_t *get_header(uint8_t *src) {
 
 /* Create new ref counted memory area */
 _public_ void *m_mem_new(size_t size, m_ref_dtor dtor) {
-    /* Always use maximum alignment for the platform */
+    /*
+     * Always use maximum alignment for the platform:
+     * user data starts at the first aligned offset past the header that
+     * leaves at least 1 byte to store alignment information.
+     * The shift only depends on the header size, not on the requested size.
+     */
     const size_t total_size = sizeof(mem_header_t) + size;
-    size_t total_size_aligned = ALIGN_UP(total_size);
-    uint8_t align_shift = total_size_aligned - total_size;
-    if (align_shift == 0) {
-        /* Add a new aligned block; it is needed to later store alignment information */
-        align_shift = alignof(max_align_t);
-    }
+    const uint8_t align_shift = ALIGN_UP(sizeof(mem_header_t) + 1) - sizeof(mem_header_t);
     mem_header_t *header = memhook._calloc(1, total_size + align_shift);
     if (header) {
         header->refs = 1;
